@@ -36,7 +36,9 @@ ASSUMPTIONS = [
 ]
 REQUIRED_MONITORS = ["pair_blocks_compared", "pair_corecore_compared", "fock_rhf_compared", "fock_uhf_compared",
                      "G_response_compared", "cis_ao_contraction_compared", "cis_sigma_compared", "molecules_compared",
-                     "linearity_checked", "eri_symmetry_checked", "wrap_overlap_calls", "wrap_tetci_calls",
+                     "linearity_checked", "eri_symmetry_checked", "fock_uhf_batch_rows_compared", "fock_rhf_batch_rows_compared",
+                     "G_batch_rows_compared", "cis_batch_rows_compared", "mol_uhf_batch_rows_compared",
+                     "mol_rhf_batch_rows_compared", "wrap_overlap_calls", "wrap_tetci_calls",
                      "wrap_pairnuc_calls"]
 CASE_TIMEOUT = 900.0
 MIN_NONTRIVIAL = 6
@@ -126,6 +128,39 @@ def gen_cases(tier, seed):
                         cases.append({"kind": "mol", "method": method, "mol": name, "uhf": 0, "seed": int(g.integers(0, 2**31))})
                     if name in gen.SMALL or name in ("NH4+", "OH-", "CH3Cl", "SO2"):
                         cases.append({"kind": "mol", "method": method, "mol": name, "uhf": 1, "seed": int(g.integers(0, 2**31))})
+    # --- converged batches (UHF and RHF), every row vs R1 -------------------------------------------------
+    rad = ["CH3.", "OH.", "NO.", "NH2.", "O2t", "CH2t", "H2O+."]
+    closed = {"MNDO": ["H2O", "NH3", "LiH", "HCl", "CH2O", "NaH", "BH3", "H2S"],
+              "AM1": ["H2O", "NH3", "HF", "HCl", "CH2O", "BeH2", "AlH3", "H2S"],
+              "PM3": ["H2O", "NH3", "LiH", "HCl", "CH2O", "MgH2", "PH3", "H2S"]}
+    nrep = 1 if tier == "quick" else 5
+    for method in METHODS:
+        for rep_ in range(nrep):
+            k = int(g.integers(2, 5))
+            name = rad[int(g.integers(0, len(rad)))]
+            cases.append({"kind": "molbatch", "method": method, "uhf": 1, "mols": [name] * k, "seed": int(g.integers(0, 2**31))})
+            k = int(g.integers(2, 5))
+            pool = rad + closed[method][:3]
+            mols = [pool[int(i)] for i in g.choice(len(pool), k, replace=False)]
+            if len(set(len(gen.molecule(n)[0]) for n in mols)) == 1:
+                mols[0] = "CH3." if mols[0] != "CH3." else "OH."
+            cases.append({"kind": "molbatch", "method": method, "uhf": 1, "mols": mols, "seed": int(g.integers(0, 2**31)),
+                          "extra_pad": int(rep_ % 2)})
+            k = int(g.integers(2, 5))
+            mols = [closed[method][int(i)] for i in g.choice(len(closed[method]), k, replace=False)]
+            cases.append({"kind": "molbatch", "method": method, "uhf": 0, "mols": mols, "seed": int(g.integers(0, 2**31))})
+    # --- Fock level on batches ----------------------------------------------------------------------------
+    nrep = 1 if tier == "quick" else 6
+    for method in METHODS:
+        names = [n for n in gen.names_for(method, gen.CLOSED_NEUTRAL + gen.IONS) if n != "C6H6"]
+        for rep_ in range(nrep):
+            for k in ((3, 2) if tier == "quick" else (2, 3, 4)):
+                name = names[int(g.integers(0, len(names)))]
+                cases.append({"kind": "fockbatch", "method": method, "mols": [name] * k, "seed": int(g.integers(0, 2**31))})
+            for k in ((4, 3) if tier == "quick" else (2, 3, 4)):
+                mols = [names[int(i)] for i in g.choice(len(names), k, replace=False)]
+                cases.append({"kind": "fockbatch", "method": method, "mols": mols, "seed": int(g.integers(0, 2**31)),
+                              "extra_pad": int(k == 3)})
     # --- Fock level -----------------------------------------------------------------------------------
     for method in METHODS:
         if tier == "quick":
@@ -275,20 +310,40 @@ def _delta(snap):
 # ---------------------------------------------------------------------------------------------------
 # helpers shared by the three levels
 # ---------------------------------------------------------------------------------------------------
+def _vmax(*vals):
+    """maximum that PROPAGATES NaN (python's max() silently drops a NaN that is not its first argument)"""
+    flat = []
+    for v in vals:
+        flat.extend(np.asarray(v, float).reshape(-1).tolist())
+    if not flat:
+        return 0.0
+    a = np.asarray(flat, float)
+    return float("nan") if np.isnan(a).any() else float(a.max())
+
+
+def _amax(x):
+    """max |x| over an array, NaN-propagating, inf-preserving"""
+    x = np.asarray(x, float)
+    if x.size == 0:
+        return 0.0
+    return float("nan") if np.isnan(x).any() else float(np.abs(x).max())
+
+
 class _Acc:
-    """margins / violations / monitors / cells accumulator"""
+    """margins / violations / monitors / cells accumulator.  A non-finite observation or bound violates its clause."""
 
     def __init__(self):
         self.margins, self.viol, self.mon, self.cells = {}, [], {}, set()
 
     def cmp(self, name, err, tol, clause=None, mech=None, detail=None):
-        r = float(err) / float(tol)
+        err, tol = float(err), float(tol)
+        r = err / tol if (np.isfinite(err) and np.isfinite(tol) and tol > 0) else float("inf")
         if not np.isfinite(r):
             r = float("inf")
         if name not in self.margins or r > self.margins[name]:
             self.margins[name] = r
         if r > 1.0:
-            d = {"error": float(err), "bound": float(tol)}
+            d = {"error": err if np.isfinite(err) else repr(err), "bound": tol if np.isfinite(tol) else repr(tol)}
             d.update(detail or {})
             self.viol.append({"clause": clause or name, "mech": mech, "detail": d})
             return True
@@ -416,17 +471,17 @@ def _run_pairs(case):
         det = {"method": method, "Zi": Zi, "Zj": Zj, "distance_A": d, "orientation": [okind, oarg], "swapped": swapped,
                "xi": list(map(float, xi)), "xj": list(map(float, xj))}
         # ERI block
-        acc.cmp("eri_block", np.abs(w[k] - pb["w10"]).max(), TOL, "eri-block", _mech("eri", method, Zi, Zj), det)
+        acc.cmp("eri_block", _amax(w[k] - pb["w10"]), TOL, "eri-block", _mech("eri", method, Zi, Zj), det)
         # one-centre blocks of the one-electron matrix (the package fills the upper triangle)
         Hi = np.diag(A.uorb()) + pb["Vi"]
         Hj = np.diag(B.uorb()) + pb["Vj"]
-        e1 = max(np.abs(np.triu(M[k, 0, 0][:A.nao, :A.nao] - Hi)).max(), np.abs(np.triu(M[k, 1, 1][:B.nao, :B.nao] - Hj)).max())
+        e1 = _vmax(_amax(np.triu(M[k, 0, 0][:A.nao, :A.nao] - Hi)), _amax(np.triu(M[k, 1, 1][:B.nao, :B.nao] - Hj)))
         acc.cmp("one_electron_diag", e1, TOL, "one-electron-diagonal-block", _mech("h1diag", method, Zi, Zj), det)
         # resonance block
         Rb = float(np.linalg.norm(np.asarray(xj) - np.asarray(xi))) / nddo.A0
         bavg = np.abs(0.5 * (A.beta()[:, None] + B.beta()[None, :]))
         tolres = TOL + bavg * _ds_allow(A, B, Rb)
-        ratio = (np.abs(M[k, 0, 1][:A.nao, :B.nao] - pb["res"]) / tolres).max()
+        ratio = _amax((M[k, 0, 1][:A.nao, :B.nao] - pb["res"]) / tolres)
         acc.cmp("resonance_block", ratio, 1.0, "resonance-block", _mech("overlap", method, Zi, Zj), det)
         # pair core-core energy
         acc.cmp("core_core", abs(E[k] - pb["enuc"]), TOL * max(1.0, abs(pb["enuc"]) * 1e-4), "pair-core-core",
@@ -434,8 +489,8 @@ def _run_pairs(case):
         acc.bump("pair_blocks_compared")
         acc.bump("pair_corecore_compared")
         if swapped and prev is not None:
-            scale = max(1.0, np.abs(prev).max())
-            acc.cmp("eri_centre_exchange", np.abs(w[k] - prev.T).max() / scale, TOL_REL_LIN, "eri-centre-exchange-transpose",
+            scale = _vmax(1.0, _amax(prev))
+            acc.cmp("eri_centre_exchange", _amax(w[k] - prev.T) / scale, TOL_REL_LIN, "eri-centre-exchange-transpose",
                     _mech("eriswap", method, Zi, Zj), det)
             acc.bump("eri_symmetry_checked")
         prev = w[k] if not swapped else None
@@ -496,7 +551,7 @@ def _run_fock(case):
     # one-electron matrix of the molecule
     Hf = M.reshape(1, molsize, molsize, 4, 4).transpose(2, 3).reshape(4 * molsize, 4 * molsize).numpy()
     Hf = np.triu(Hf) + np.triu(Hf, 1).T
-    acc.cmp("hcore_molecule", (np.abs(mdl.extract(Hf) - mdl.H) / (TOL + allow)).max(), 1.0, "one-electron-matrix", mech("hcore"), det)
+    acc.cmp("hcore_molecule", _amax((mdl.extract(Hf) - mdl.H) / (TOL + allow)), 1.0, "one-electron-matrix", mech("hcore"), det)
 
     def rsym(scale=1.0):
         A = g.normal(size=(N, N)) * 0.3
@@ -508,24 +563,24 @@ def _run_fock(case):
         return torch.tensor(mdl.embed(P, molsize)).unsqueeze(0)
 
     def rel(a, b):
-        return float(np.abs(a - b).max() / max(1e-30, np.abs(b).max()))
+        return _amax(a - b) / _vmax(1e-30, _amax(b))
 
     # restricted Fock
     P1, P2 = rsym(), rsym()
     a, b = float(g.uniform(0.3, 1.7)), float(g.uniform(-1.5, -0.2))
     F1 = full(fock(*_fock_args(mol, M, w, T(P1), method))[0])
-    acc.cmp("fock_rhf", (np.abs(mdl.extract(F1) - mdl.fock_rhf(P1)) / (TOL + allow)).max(), 1.0, "fock-restricted", mech("fock"), det)
+    acc.cmp("fock_rhf", _amax((mdl.extract(F1) - mdl.fock_rhf(P1)) / (TOL + allow)), 1.0, "fock-restricted", mech("fock"), det)
     acc.bump("fock_rhf_compared")
     F2 = full(fock(*_fock_args(mol, M, w, T(P2), method))[0])
     F0 = full(fock(*_fock_args(mol, M, w, T(np.zeros((N, N))), method))[0])
     F12 = full(fock(*_fock_args(mol, M, w, T(a * P1 + b * P2), method))[0])
     acc.cmp("linearity_fock", rel(F12 - F0, a * (F1 - F0) + b * (F2 - F0)), TOL_REL_LIN, "linearity-fock", mech("lin-fock"), det)
-    acc.cmp("fock_symmetric", np.abs(F1 - F1.T).max(), 1e-12 * max(1.0, np.abs(F1).max()), "fock-symmetric", mech("sym-fock"), det)
+    acc.cmp("fock_symmetric", _amax(F1 - F1.T), 1e-12 * _vmax(1.0, _amax(F1)), "fock-symmetric", mech("sym-fock"), det)
     acc.bump("linearity_checked")
     # ERI permutational symmetry at operator level: tr(P1 G(P2)) = tr(P2 G(P1)) needs (mn|ls) = (ls|mn)
     G1, G2 = mdl.extract(F1 - F0), mdl.extract(F2 - F0)
     t12, t21 = float(np.sum(P1 * G2)), float(np.sum(P2 * G1))
-    acc.cmp("eri_perm_symmetry", abs(t12 - t21) / max(abs(t12), abs(t21), 1e-30), TOL_REL_LIN, "eri-permutational-symmetry",
+    acc.cmp("eri_perm_symmetry", abs(t12 - t21) / _vmax(abs(t12), abs(t21), 1e-30), TOL_REL_LIN, "eri-permutational-symmetry",
             mech("eriperm"), det)
     acc.bump("eri_symmetry_checked")
     # padding slots / hydrogen p slots must not receive two-electron contributions that reach real orbitals: covered by
@@ -536,7 +591,7 @@ def _run_fock(case):
     U = lambda x, y: torch.tensor(np.stack([mdl.embed(x, molsize), mdl.embed(y, molsize)])).unsqueeze(0)
     Fu = full(fock_u_batch(*_fock_args(mol, M, w, U(Pa, Pb), method))[0])
     Fa, Fb = mdl.fock_uhf(Pa, Pb)
-    eu = max((np.abs(mdl.extract(Fu[0]) - Fa) / (TOL + allow)).max(), (np.abs(mdl.extract(Fu[1]) - Fb) / (TOL + allow)).max())
+    eu = _vmax(_amax((mdl.extract(Fu[0]) - Fa) / (TOL + allow)), _amax((mdl.extract(Fu[1]) - Fb) / (TOL + allow)))
     acc.cmp("fock_uhf", eu, 1.0, "fock-unrestricted", mech("focku"), det)
     acc.bump("fock_uhf_compared")
     Fu2 = full(fock_u_batch(*_fock_args(mol, M, w, U(Pc, Pd), method))[0])
@@ -545,7 +600,7 @@ def _run_fock(case):
     acc.cmp("linearity_fock_u", rel(Fu12 - Fu0, a * (Fu - Fu0) + b * (Fu2 - Fu0)), TOL_REL_LIN, "linearity-fock-u", mech("lin-focku"), det)
     # closed-shell limit of the unrestricted builder
     Fr = full(fock_u_batch(*_fock_args(mol, M, w, U(0.5 * P1, 0.5 * P1), method))[0])
-    acc.cmp("fock_uhf_closed_shell_limit", max(np.abs(Fr[0] - F1).max(), np.abs(Fr[1] - F1).max()), 1e-9, "fock-u-equals-fock-for-equal-spins",
+    acc.cmp("fock_uhf_closed_shell_limit", _vmax(_amax(Fr[0] - F1), _amax(Fr[1] - F1)), 1e-9, "fock-u-equals-fock-for-equal-spins",
             mech("focku-limit"), det)
     acc.bump("linearity_checked")
 
@@ -553,7 +608,7 @@ def _run_fock(case):
     D1, D2 = rsym(), rsym()
     D1[np.diag_indices(N)] -= 1.0
     Gr1 = full(G(*_fock_args(mol, M, w, T(D1), method))[0])
-    acc.cmp("G_response", np.abs(mdl.extract(Gr1) - mdl.G(D1)).max(), TOL, "response-operator-G", mech("g"), det)
+    acc.cmp("G_response", _amax(mdl.extract(Gr1) - mdl.G(D1)), TOL, "response-operator-G", mech("g"), det)
     acc.bump("G_response_compared")
     Gr2 = full(G(*_fock_args(mol, M, w, T(D2), method))[0])
     Gr12 = full(G(*_fock_args(mol, M, w, T(a * D1 + b * D2), method))[0])
@@ -565,7 +620,7 @@ def _run_fock(case):
         nroots = 2
         Pn = g.normal(size=(1, nroots, N, N))
         Fx = makeA_pi_batched(mol, torch.tensor(Pn), w).detach().numpy()
-        e = max(np.abs(Fx[0, r] - mdl.G(Pn[0, r])).max() for r in range(nroots))
+        e = _vmax(*[_amax(Fx[0, r] - mdl.G(Pn[0, r])) for r in range(nroots)])
         acc.cmp("cis_ao_contraction", e, TOL, "cis-ao-contraction-nonsymmetric", mech("cis-ao"), det)
         acc.bump("cis_ao_contraction_compared")
         Fx12 = makeA_pi_batched(mol, torch.tensor(a * Pn[:, :1] + b * Pn[:, 1:]), w).detach().numpy()
@@ -586,8 +641,8 @@ def _run_fock(case):
             ea = eb = 0.0
             for r in range(nroots):
                 Xr = V[0, r].reshape(nocc, nvir)
-                ea = max(ea, np.abs(Av[0, r].reshape(nocc, nvir) - mdl.cis_sigma(Co, Cv, eo, ev, Xr)).max())
-                eb = max(eb, np.abs(Bv[0, r].reshape(nocc, nvir) - mdl.rpa_b_sigma(Co, Cv, Xr)).max())
+                ea = _vmax(ea, _amax(Av[0, r].reshape(nocc, nvir) - mdl.cis_sigma(Co, Cv, eo, ev, Xr)))
+                eb = _vmax(eb, _amax(Bv[0, r].reshape(nocc, nvir) - mdl.rpa_b_sigma(Co, Cv, Xr)))
             acc.cmp("cis_sigma_A", ea, 4 * TOL, "cis-sigma-vector-A", mech("cis-a"), det)
             acc.cmp("rpa_sigma_B", eb, 4 * TOL, "rpa-sigma-vector-B", mech("rpa-b"), det)
             acc.bump("cis_sigma_compared")
@@ -599,9 +654,67 @@ def _run_fock(case):
 # ---------------------------------------------------------------------------------------------------
 # level 3: converged molecules
 # ---------------------------------------------------------------------------------------------------
+def _compare_mol_row(acc, method, name, uhf, Z, X, q, m, out, r, batch=None):
+    """one converged molecule (row r of the returned arrays) against the R1 functional at ITS returned density.
+    -> (compared?, obs)"""
+    from vlib.ref import nddo
+
+    nat = len(Z)
+    mdl = nddo.Model(method, Z, X)
+    N = mdl.nao
+    allow = _res_allow(mdl)
+    det = {"method": method, "mol": name, "uhf": uhf, "species": list(Z), "coords": np.asarray(X).tolist(), "charge": q, "mult": m}
+    if batch is not None:
+        det["batch"] = batch
+        det["row"] = r
+    tag = ("uhf" if uhf else "rhf") + ("-batch" if batch is not None else "")
+    mech = lambda c: ("%s-%s-%s" % (c, method, tag)).lower()
+    dm = out["dm"][r]
+    if uhf:
+        Pa, Pb = mdl.extract(dm[0]), mdl.extract(dm[1])
+        Pt = Pa + Pb
+        e_ref = mdl.eelec_uhf(Pa, Pb)
+        Fa, Fb = mdl.fock_uhf(Pa, Pb)
+        comm = _vmax(_amax(Fa @ Pa - Pa @ Fa), _amax(Fb @ Pb - Pb @ Fb))
+        fmax = _vmax(_amax(Fa), _amax(Fb))
+        pmax = _vmax(_amax(Pa), _amax(Pb))
+        inside = float(np.abs(Pa).sum() + np.abs(Pb).sum())
+    else:
+        Pt = mdl.extract(dm)
+        e_ref = mdl.eelec_rhf(Pt)
+        Fr = mdl.fock_rhf(Pt)
+        comm = _amax(Fr @ Pt - Pt @ Fr)
+        fmax = _amax(Fr)
+        pmax = _amax(Pt)
+        inside = float(np.abs(Pt).sum())
+    # everything outside the real AO slots of the returned density must be empty, else the R1 functional (which only has
+    # the real orbitals) is not comparable -- that would be a padding defect (C05), not a statement about the NDDO model.
+    # (a NaN anywhere in the density is NOT skipped: it falls through and violates the energy clauses)
+    leak = float(np.abs(dm).sum()) - inside
+    if np.isfinite(leak) and abs(leak) > 1e-9:
+        return False, {"mol": name, "skipped": "returned density has weight outside the real AO slots"}
+    tolE = TOL + float(np.sum(np.abs(Pt) * allow))
+    etot_ref = mdl.etot(e_ref)
+    sfx = "_batch" if batch is not None else ""
+    acc.cmp("Eelec" + sfx, abs(float(out["Eelec"][r]) - e_ref), tolE, "Eelec-vs-R1-functional", mech("eelec"), det)
+    acc.cmp("Enuc" + sfx, abs(float(out["Enuc"][r]) - mdl.enuc), TOL, "Enuc-vs-R1", mech("enuc"), det)
+    acc.cmp("Etot" + sfx, abs(float(out["Etot"][r]) - etot_ref), tolE + TOL, "Etot-vs-R1", mech("etot"), det)
+    acc.cmp("Eiso_sum" + sfx, abs(float(out["Eiso"][r]) - mdl.eiso_sum), TOL, "sum-of-isolated-atom-energies", mech("eiso"), det)
+    acc.cmp("Hf" + sfx, abs(float(out["Hf"][r]) - mdl.heat(etot_ref)), tolE + 2 * TOL, "heat-of-formation", mech("hf"), det)
+    # stationarity of the returned density for the independent functional: [F(P),P] = [F(P), P - P'] with P' the density
+    # built from F(P); the stopping rule bounds max|P - P'| by 15 eps; plus the allowed difference of the two H matrices
+    tolC = 2.0 * N * (fmax * 15.0 * EPS_SCF + pmax * (1e-7 + float(allow.max())))
+    acc.cmp("commutator_FP" + sfx, comm, tolC, "returned-density-stationary-for-R1", mech("comm"), det)
+    for (a, b), info in mdl.cc_info.items():
+        if info["special"]:
+            acc.cells.add("mol-core-core/%s/%s" % (method, info["special"][0] + "-" + info["special"][1]))
+    obs = {"mol": name, "Etot": float(out["Etot"][r]), "Etot_R1": etot_ref, "Hf_kcal": float(out["Hf"][r]) * nddo.KCAL_PER_EV,
+           "Hf_R1_kcal": mdl.heat(etot_ref) * nddo.KCAL_PER_EV, "commutator": float(comm)}
+    return True, obs
+
+
 def _run_mol(case):
     from vlib import run
-    from vlib.ref import nddo
 
     snap = _snapshot()
     acc = _Acc()
@@ -614,53 +727,181 @@ def _run_mol(case):
     if nc is not None and bool(np.any(nc)):
         mon, cells = _delta(snap)
         return {"ineligible": "SCF not converged (flagged by the package)", "monitors": mon, "cells": cells}
-    mdl = nddo.Model(method, Z, X)
-    N = mdl.nao
-    allow = _res_allow(mdl)
-    det = {"method": method, "mol": case["mol"], "uhf": uhf, "species": list(Z), "coords": X.tolist(), "charge": q, "mult": m}
-    mech = lambda c: ("%s-%s-%s" % (c, method, "uhf" if uhf else "rhf")).lower()
-    dm = out["dm"][0]
-    if uhf:
-        Pa, Pb = mdl.extract(dm[0]), mdl.extract(dm[1])
-        Pt = Pa + Pb
-        e_ref = mdl.eelec_uhf(Pa, Pb)
-        Fa, Fb = mdl.fock_uhf(Pa, Pb)
-        comm = max(np.abs(Fa @ Pa - Pa @ Fa).max(), np.abs(Fb @ Pb - Pb @ Fb).max())
-        fmax = max(np.abs(Fa).max(), np.abs(Fb).max())
-        pmax = max(np.abs(Pa).max(), np.abs(Pb).max())
-    else:
-        Pt = mdl.extract(dm)
-        e_ref = mdl.eelec_rhf(Pt)
-        Fr = mdl.fock_rhf(Pt)
-        comm = np.abs(Fr @ Pt - Pt @ Fr).max()
-        fmax = np.abs(Fr).max()
-        pmax = np.abs(Pt).max()
-    # everything outside the real AO slots of the returned density must be empty, else the R1 functional (which only has
-    # the real orbitals) is not comparable -- that would be a padding defect (C05), not a statement about the NDDO model
-    leak = float(np.abs(dm).sum() - (np.abs(Pa).sum() + np.abs(Pb).sum() if uhf else np.abs(Pt).sum()))
-    if abs(leak) > 1e-9:
+    ok, o = _compare_mol_row(acc, method, case["mol"], uhf, Z, X, q, m, out, 0)
+    if not ok:
         mon, cells = _delta(snap)
-        return {"ineligible": "returned density has weight outside the real AO slots (padding / hydrogen p slots)",
-                "monitors": mon, "cells": cells}
-    tolE = TOL + float(np.sum(np.abs(Pt) * allow))
-    etot_ref = mdl.etot(e_ref)
-    acc.cmp("Eelec", abs(float(out["Eelec"][0]) - e_ref), tolE, "Eelec-vs-R1-functional", mech("eelec"), det)
-    acc.cmp("Enuc", abs(float(out["Enuc"][0]) - mdl.enuc), TOL, "Enuc-vs-R1", mech("enuc"), det)
-    acc.cmp("Etot", abs(float(out["Etot"][0]) - etot_ref), tolE + TOL, "Etot-vs-R1", mech("etot"), det)
-    acc.cmp("Eiso_sum", abs(float(out["Eiso"][0]) - mdl.eiso_sum), TOL, "sum-of-isolated-atom-energies", mech("eiso"), det)
-    acc.cmp("Hf", abs(float(out["Hf"][0]) - mdl.heat(etot_ref)), tolE + 2 * TOL, "heat-of-formation", mech("hf"), det)
-    # stationarity of the returned density for the independent functional: [F(P),P] = [F(P), P - P'] with P' the density
-    # built from F(P); the stopping rule bounds max|P - P'| by 15 eps; plus the allowed difference of the two H matrices
-    tolC = 2.0 * N * (fmax * 15.0 * EPS_SCF + pmax * (1e-7 + float(allow.max())))
-    acc.cmp("commutator_FP", comm, tolC, "returned-density-stationary-for-R1", mech("comm"), det)
+        return {"ineligible": o["skipped"], "monitors": mon, "cells": cells}
     acc.bump("molecules_compared")
     acc.cells.add("mol/%s/%s/%s" % (method, case["mol"], "uhf" if uhf else "rhf"))
-    for (i, j), info in mdl.cc_info.items():
-        if info["special"]:
-            acc.cells.add("mol-core-core/%s/%s" % (method, info["special"][0] + "-" + info["special"][1]))
-    obs = {"kind": "mol", "method": method, "mol": case["mol"], "uhf": uhf, "Etot": float(out["Etot"][0]), "Etot_R1": etot_ref,
-           "Hf_kcal": float(out["Hf"][0]) * nddo.KCAL_PER_EV, "Hf_R1_kcal": mdl.heat(etot_ref) * nddo.KCAL_PER_EV,
-           "commutator": float(comm), "worst": acc.margins}
+    obs = {"kind": "mol", "method": method, "uhf": uhf, "worst": acc.margins}
+    obs.update(o)
+    return acc.result(True, obs, snap)
+
+
+def _batch_geometries(case):
+    """rows of a batch case: each row its own library molecule, distortion, orientation and position"""
+    g = np.random.default_rng(case["seed"])
+    rows = []
+    for name in case["mols"]:
+        Z, X, q, m = gen.molecule(name)
+        Xd = gen.distort(X, g, sigma=0.06)
+        Xd = Xd @ gen.haar(g).T + g.uniform(-3, 3, 3)
+        rows.append((name, Z, Xd, q, m))
+    return rows, g
+
+
+def _run_molbatch(case):
+    """converged BATCH (2-4 molecules, same-species or zero-padded heterogeneous) through Electronic_Structure; every
+    row is judged against the R1 functional at that row's own returned density"""
+    from vlib import run
+
+    snap = _snapshot()
+    acc = _Acc()
+    method = case["method"]
+    uhf = bool(case["uhf"])
+    rows, g = _batch_geometries(case)
+    S, C = gen.pad_batch([(Z, X) for _, Z, X, _, _ in rows], extra_pad=int(case.get("extra_pad", 0)))
+    charges = np.array([float(q) for _, _, _, q, _ in rows])
+    mult = np.array([float(m) if uhf else 1.0 for _, _, _, _, m in rows])
+    sett = run.settings(method, eps=EPS_SCF, converger=((1,) if uhf else (2,)), uhf=uhf)
+    out = run.single_point(np.array(S), np.array(C), sett, charges=charges, mult=mult)
+    nc = out["notconverged"]
+    nc = np.zeros(len(rows), bool) if nc is None else np.asarray(nc).reshape(-1).astype(bool)
+    layout = "same-species" if len(set(case["mols"])) == 1 else "padded-heterogeneous"
+    compared, samples = 0, []
+    for r, (name, Z, X, q, m) in enumerate(rows):
+        if nc[r]:
+            continue
+        ok, o = _compare_mol_row(acc, method, name, uhf, Z, X, q, (m if uhf else 1), out, r, batch=list(case["mols"]))
+        if ok:
+            compared += 1
+            samples.append(o)
+            acc.cells.add("molbatch/%s/%s/%s/n%d" % (method, "uhf" if uhf else "rhf", layout, len(rows)))
+    if compared == 0:
+        mon, cells = _delta(snap)
+        return {"ineligible": "no row of the batch converged / was comparable", "monitors": mon, "cells": cells}
+    acc.bump("mol_uhf_batch_rows_compared" if uhf else "mol_rhf_batch_rows_compared", compared)
+    obs = {"kind": "molbatch", "method": method, "uhf": uhf, "mols": case["mols"], "rows_compared": compared,
+           "rows_not_converged": int(nc.sum()), "rows": samples[:4], "worst": acc.margins}
+    return acc.result(True, obs, snap)
+
+
+def _run_fockbatch(case):
+    """`fock`, `fock_u_batch`, `G` and the CIS AO contraction / sigma builders on a BATCH of 2-4 molecules (same species with
+    different geometries and densities per row, or zero-padded heterogeneous); every row is compared with R1 evaluated
+    for that row's own geometry and its own (P, Palpha, Pbeta, dD, transition density)"""
+    import torch
+    from seqm.seqm_functions.fock import fock
+    from seqm.seqm_functions.fock_u_batch import fock_u_batch
+    from seqm.seqm_functions.G_XL_LR import G
+    from seqm.seqm_functions.hcore import hcore
+    from seqm.seqm_functions.rcis_batch import makeA_pi_batched, matrix_vector_product_batched
+    from seqm.seqm_functions.rcis_new import makeA_pi_any_batched
+    from vlib import run
+    from vlib.ref import nddo
+
+    snap = _snapshot()
+    acc = _Acc()
+    method = case["method"]
+    rows, g = _batch_geometries(case)
+    nmol = len(rows)
+    extra = int(case.get("extra_pad", 0))
+    S, C = gen.pad_batch([(Z, X) for _, Z, X, _, _ in rows], extra_pad=extra)
+    charges = np.array([float(q) for _, _, _, q, _ in rows])
+    sett = run.settings(method, eps=1e-8)
+    with run.quiet():
+        mol, es, sett2 = run.build(np.array(S), np.array(C), sett, charges=charges, mult=1)
+        M, w, *_ = hcore(mol)
+    M, w = M.detach(), w.detach()
+    molsize = mol.molsize
+    homogeneous = len(set(case["mols"])) == 1 and extra == 0
+    layout = "same-species" if len(set(case["mols"])) == 1 else "padded-heterogeneous"
+    if extra:
+        layout += "+pad"
+    mdls = [nddo.Model(method, Z, X) for _, Z, X, _, _ in rows]
+    allows = [_res_allow(m_) for m_ in mdls]
+    mech = lambda c: ("%s-%s-batch" % (c, method)).lower()
+
+    def det(r):
+        return {"method": method, "batch": list(case["mols"]), "row": r, "mol": rows[r][0], "species": list(rows[r][1]),
+                "coords": rows[r][2].tolist(), "layout": layout}
+
+    def rsym(N, scale=1.0):
+        A = g.normal(size=(N, N)) * 0.3
+        A = A + A.T
+        A[np.diag_indices(N)] = g.uniform(0, 2, N)
+        return A * scale
+
+    def stack(Ps):
+        return torch.tensor(np.stack([m_.embed(P, molsize) for m_, P in zip(mdls, Ps)]))
+
+    Hfull = M.reshape(nmol, molsize, molsize, 4, 4).transpose(2, 3).reshape(nmol, 4 * molsize, 4 * molsize).numpy()
+    # restricted builder, response operator
+    P1 = [rsym(m_.nao) for m_ in mdls]
+    D1 = [rsym(m_.nao) - np.eye(m_.nao) for m_ in mdls]
+    F1 = fock(*_fock_args(mol, M, w, stack(P1), method)).detach().numpy()
+    G1 = G(*_fock_args(mol, M, w, stack(D1), method)).detach().numpy()
+    # unrestricted builder: layout (nmol, 2, N, N)
+    Pa = [rsym(m_.nao, 0.5) for m_ in mdls]
+    Pb = [rsym(m_.nao, 0.5) for m_ in mdls]
+    PU = torch.stack([stack(Pa), stack(Pb)], dim=1)
+    FU = fock_u_batch(*_fock_args(mol, M, w, PU, method)).detach().numpy()
+    if FU.shape[:2] != (nmol, 2):
+        return {"inconclusive": "fock_u_batch returned shape %r for a batch of %d" % (FU.shape, nmol)}
+    for r, m_ in enumerate(mdls):
+        Hr = np.triu(Hfull[r]) + np.triu(Hfull[r], 1).T
+        tolm = TOL + allows[r]
+        acc.cmp("hcore_molecule_batch", _amax((m_.extract(Hr) - m_.H) / tolm), 1.0, "one-electron-matrix", mech("hcore"), det(r))
+        acc.cmp("fock_rhf_batch", _amax((m_.extract(F1[r]) - m_.fock_rhf(P1[r])) / tolm), 1.0, "fock-restricted", mech("fock"), det(r))
+        acc.cmp("G_response_batch", _amax(m_.extract(G1[r]) - m_.G(D1[r])), TOL, "response-operator-G", mech("g"), det(r))
+        Fa, Fb = m_.fock_uhf(Pa[r], Pb[r])
+        eu = _vmax(_amax((m_.extract(FU[r, 0]) - Fa) / tolm), _amax((m_.extract(FU[r, 1]) - Fb) / tolm))
+        acc.cmp("fock_uhf_batch", eu, 1.0, "fock-unrestricted", mech("focku"), det(r))
+    acc.bump("fock_rhf_batch_rows_compared", nmol)
+    acc.bump("G_batch_rows_compared", nmol)
+    acc.bump("fock_uhf_batch_rows_compared", nmol)
+    # CIS / RPA AO contraction on the batch
+    nroots = 2
+    if homogeneous:
+        N = mdls[0].nao
+        Pn = g.normal(size=(nmol, nroots, N, N))
+        Fx = makeA_pi_batched(mol, torch.tensor(Pn), w).detach().numpy()
+        e = _vmax(*[_amax(Fx[r, k] - mdls[r].G(Pn[r, k])) for r in range(nmol) for k in range(nroots)])
+        acc.cmp("cis_ao_contraction_batch", e, TOL, "cis-ao-contraction-nonsymmetric", mech("cis-ao"), det(0))
+        acc.bump("cis_batch_rows_compared", nmol)
+        q0 = rows[0][3]
+        nocc = int(round(mdls[0].n_valence - q0)) // 2
+        nvir = N - nocc
+        if nocc >= 1 and nvir >= 1:
+            Cs = [np.linalg.qr(g.normal(size=(N, N)))[0] for _ in range(nmol)]
+            eo = [np.sort(g.uniform(-40, -8, nocc)) for _ in range(nmol)]
+            ev = [np.sort(g.uniform(-2, 12, nvir)) for _ in range(nmol)]
+            V = g.normal(size=(nmol, nroots, nocc * nvir))
+            ea_ei = torch.tensor(np.stack([ev[r][None, :] - eo[r][:, None] for r in range(nmol)]))
+            Co = torch.tensor(np.stack([c[:, :nocc] for c in Cs]))
+            Cv = torch.tensor(np.stack([c[:, nocc:] for c in Cs]))
+            Av, Bv = matrix_vector_product_batched(mol, torch.tensor(V), w, ea_ei, Co, Cv, makeB=True)
+            Av, Bv = Av.detach().numpy(), Bv.detach().numpy()
+            ea = eb = 0.0
+            for r in range(nmol):
+                for k in range(nroots):
+                    Xr = V[r, k].reshape(nocc, nvir)
+                    ea = _vmax(ea, _amax(Av[r, k].reshape(nocc, nvir) - mdls[r].cis_sigma(Cs[r][:, :nocc], Cs[r][:, nocc:], eo[r], ev[r], Xr)))
+                    eb = _vmax(eb, _amax(Bv[r, k].reshape(nocc, nvir) - mdls[r].rpa_b_sigma(Cs[r][:, :nocc], Cs[r][:, nocc:], Xr)))
+            acc.cmp("cis_sigma_A_batch", ea, 4 * TOL, "cis-sigma-vector-A", mech("cis-a"), det(0))
+            acc.cmp("rpa_sigma_B_batch", eb, 4 * TOL, "rpa-sigma-vector-B", mech("rpa-b"), det(0))
+    else:
+        nmax = max(m_.nao for m_ in mdls)
+        Pn = np.zeros((nmol, nroots, nmax, nmax))
+        for r, m_ in enumerate(mdls):
+            Pn[r, :, :m_.nao, :m_.nao] = g.normal(size=(nroots, m_.nao, m_.nao))
+        Fx = makeA_pi_any_batched(mol, torch.tensor(Pn), w).detach().numpy()
+        e = _vmax(*[_amax(Fx[r, k, :mdls[r].nao, :mdls[r].nao] - mdls[r].G(Pn[r, k, :mdls[r].nao, :mdls[r].nao]))
+                    for r in range(nmol) for k in range(nroots)])
+        acc.cmp("cis_ao_contraction_anybatch", e, TOL, "cis-ao-contraction-heterogeneous-batch", mech("cis-ao-any"), det(0))
+        acc.bump("cis_batch_rows_compared", nmol)
+    acc.cells.add("fockbatch/%s/%s/n%d" % (method, layout, nmol))
+    obs = {"kind": "fockbatch", "method": method, "mols": case["mols"], "layout": layout, "molsize": int(molsize), "worst": acc.margins}
     return acc.result(True, obs, snap)
 
 
@@ -674,6 +915,10 @@ def run_case(case):
         return _run_fock(case)
     if kind == "mol":
         return _run_mol(case)
+    if kind == "molbatch":
+        return _run_molbatch(case)
+    if kind == "fockbatch":
+        return _run_fockbatch(case)
     raise ValueError(kind)
 
 
